@@ -41,6 +41,7 @@ func newSeqCasePlaceholder(r *vk.Run, t *tally, stream string, idx int, clients 
 		c.init = append(c.init, "placeholder active mode id="+placeholder)
 	}
 	c.w = newWorldPlaceholder(c.clk, uint64(idx)*0x9E3779B97F4A7C15+r.Seed, clients, placeholder, init...)
+	c.w.futureStamps = true
 	c.pre = c.w.observe()
 	c.ref = &refTable{modes: map[string]bool{}}
 	for _, m := range init {
